@@ -43,6 +43,12 @@ CLAIMED = {
  "C18": ("smx", SMX,
          "Histories of install attempts (plan id, offered apps, per-app results, manifest version present or not), plan failures, idle iterations and restarts (on the target or another version; consistent clocks, wall clock behind until a later loop, monotonic clock racing ahead) run on the real state machine; the reference tracks first-seen per plan, consecutive failed installs and the durable reboot record; metrics are compared (attempt counts exactly, durations against clock windows), and after every clean install the storage surviving a crash at the first reboot question is rebuilt on the target version and must report exactly one waited-for-reboot metric.",
          "Two apps, system app first; durations checked against windows of non-overlapping steps; a record overwritten while an older one is still pending is treated as unspecified.", "3/C18"),
+ "C02": ("smx", SMX,
+         "The real StandardCupv2Handler runs inside the real state machine and the harness is the (independent) signer: 7 forgery kinds (no/garbage ETag, signature over another body, unregistered key, registered key under the wrong id, replay of every earlier genuine response incl. across a restart, ETag of the sibling request) x 6 payloads (offer, cohort/daystart change, X-Retry-After, error statuses) are injected at update-check attempt 1 and 2, at every event report of five reporting paths and at a reboot-wait ping; update-check forgeries are judged by explicit negatives on events, requests, installer/policy calls, the next policy call and a machine rebuilt on the committed storage; report and ping forgeries must leave a log identical to the transport-failure run of the same script.",
+         "One app; forged position x kind x payload enumerated one forgery per history.", "3/C02"),
+ "C03": ("smx", SMX,
+         "Every service URL of a grammar (2 schemes x 7 authorities incl. IPv6 literals, zone id and userinfo x 5 paths x 5 queries) x 3 key sets x 2 id assignments x 3 request contents is built twice through the real RequestBuilder + StandardCupv2Handler and the wire URI, retained body, key id and nonce compared with an independent string-level expectation; all nonces of the whole enumeration must be pairwise distinct; in continuous-mode histories (failed attempts, install with three reports, ping, reboot, restart, further check) every wire request and the metadata/bytes handed to the installer are checked.",
+         "Nonce unpredictability is not observable (distinctness only); http::Uri decides which URLs are well-formed.", "3/C03"),
 }
 
 PENDING_REASON = "check under construction in this round (design in DESIGN.md section 3); not claimed until its machinery is committed"
